@@ -592,6 +592,8 @@ class LinAnalysis:
         self.post = {}            # function name -> post(...) used at call sites instead of the body
         self._wants = {}
         self.max_returns = 10
+        self.no_alias = set()      # records whose symbolic objects are taken to be pairwise different (well-formed structures)
+        self.track_fields = set()  # member names whose stores are remembered per object ("stored" marks)
         self.track_writes = False   # remember how far writes into each area reached (USEDCOVER)
         self.flex = {}             # record -> (member array, bytes before it): inline area that extends to the end of the allocation
         self.state_budget = None   # deterministic cut: number of block states processed
@@ -1032,13 +1034,15 @@ class LinAnalysis:
             st.env.pop(loc, None)
         else:
             st.env[loc] = v
+        if loc[0] == "f" and self.track_fields and loc[2].rsplit(".", 1)[-1] in self.track_fields:
+            st.env[("stored", loc[1], loc[2])] = Lin.const(1)
         if loc[0] == "f" and isinstance(loc[1], str) and loc[1][0] in "PLC":
             # another symbolic object of the same record may be this one: its field is no longer known
             path = loc[2]
             pre = path.rsplit(".", 1)[0] + "." if "." in path else ""
             fld = path.rsplit(".", 1)[-1]
             rec = self.objrec.get((loc[1], pre))
-            if rec:
+            if rec and rec not in self.no_alias:
                 for (o2, p2), r2 in self.objrec.items():
                     if r2 == rec and o2 != loc[1] and isinstance(o2, str) and o2[0] in "PLC" and ("distinct", loc[1], o2) not in st.env:
                         k2 = ("f", o2, p2 + fld)
